@@ -227,8 +227,27 @@ func c20(args []string) {
 		c20Concurrent(w)
 		return
 	}
-	defer dispatchEvents(w)
 	start := time.Date(2023, 5, 10, 12, 0, 0, 0, time.UTC)
+	defer func() {
+		dispatchEvents(w)
+		// every type once more as a frame whose CRC check fails (one bit of the CRC flipped): it is other data whatever its
+		// type bits say - not typed, no timestamp extracted, no times attached
+		for t := 0; t <= 4095; t++ {
+			ev := map[string]interface{}{"t": t, "crc": true, "gm_type": 0, "stamped": false, "rejected": false}
+			ev["panic"] = tr.Recover(func() {
+				frame := synthFrame(t)
+				frame[len(frame)-1-t%3] ^= 1 << uint(t%8)
+				h := handler.New(start, slog.LevelDebug)
+				m, err := h.GetMessage(frame)
+				ev["rejected"] = err != nil
+				if m != nil {
+					ev["gm_type"] = m.MessageType
+					ev["stamped"] = m.Timestamp != 0 || m.SentAt != "" || m.StartOfWeek != ""
+				}
+			})
+			w.Emit(ev)
+		}
+	}()
 	for _, level := range []slog.Level{slog.LevelDebug} {
 		for t := -2; t <= 4095; t++ {
 			ev := c20Event{T: t}
